@@ -18,9 +18,10 @@ pub fn generate(run_seed: u64) -> Scenario {
     let mut g = Gen::new(run_seed);
     let scheme = pick_scheme(&mut g.r, &|_| true);
     let (cfg, polys) = g.workload(&scheme, 4);
-    let points = g.points(3);
+    let mut points = g.points(3);
     let n_ops = g.r.gen_range(1..=2);
-    let ops: Vec<Op> = (0..n_ops).map(|_| g.lc_op(&polys, points.len())).collect();
+    let mut ops: Vec<Op> = (0..n_ops).map(|_| g.lc_op(&polys, points.len())).collect();
+    g.lc_stress(&polys, &mut points, &mut ops);
     let enabled: Vec<&str> = KINDS.iter().copied().filter(|_| g.r.gen_bool(0.6)).collect();
     let mut faults = vec![];
     for (oi, op) in ops.iter().enumerate() {
